@@ -7,6 +7,7 @@ from typing import Dict, List, Optional, Tuple, TypedDict, Union
 from pacti.iocontract import IoContract, IoContractCompound, NestedTermList, TacticStatistics, Var
 from pacti.terms.polyhedra import serializer
 from pacti.terms.polyhedra.polyhedra import PolyhedralTerm, PolyhedralTermList
+from pacti.utils.errors import ContractFormatError
 
 numeric = Union[int, float]
 ser_pt = Dict[str, Union[float, Dict[str, float]]]
@@ -138,6 +139,10 @@ class PolyhedralIoContract(IoContract):
         for kw in ("assumptions", "guarantees", "input_vars", "output_vars"):
             if kw not in contract:
                 raise ValueError(f"Passed dictionary does not have key {kw}.")
+        try:
+            serializer.validate_contract_dict(contract, "passed to from_dict", machine_representation=True)
+        except ContractFormatError as e:
+            raise ValueError(str(e))
 
         if all(isinstance(x, dict) for x in contract["assumptions"]):
             a = PolyhedralTermList(
